@@ -148,11 +148,20 @@ SchedClauses(r, b, zone) ==
        \o Cl(\A k \in 1..Len(got) : \E j \in 1..n : fits(got[k], recs[j]), "C10:schedule-fields")
        \o Cl(\A x \in ids : \E k \in 1..Len(got) : got[k].id = Decimal(x), "C10:every-slot-listed")
 
+\* C09: "returns a parsed response" - whatever a state query returns was parsed from THIS reply: the reply is at least long
+\* enough to hold the first fields and those fields are the reply's (a response remembered from an earlier exchange is not)
+ParsedFromThisReply(s, r, b) ==
+  CASE s.op = "get_state" -> Len(b) >= 76 /\ r.state = At(b, 75)
+    [] s.op = "get_breeze_state" -> Len(b) >= 81 /\ r.target = At(b, 80)
+    [] s.op = "get_shutter_state" -> Len(b) >= 80 /\ r.position = At(b, 76) /\ r.direction = Field(b, 78, 2)
+    [] OTHER -> TRUE
+
 ReturnClauses(s, e, b) ==
   IF e.out # "return" THEN <<>>
   ELSE CASE s.op = "get_state" /\ WellFormedState1(b) -> State1Clauses(e.r, b)
          [] s.op = "get_breeze_state" /\ WellFormedThermo(b) -> ThermoClauses(e.r, b)
          [] s.op = "get_shutter_state" /\ WellFormedShutter(b) -> ShutterClauses(e.r, b)
+         [] s.op \in StateQueries -> Cl(ParsedFromThisReply(s, e.r, b), "C09:returned-response-not-parsed-from-this-reply")
          [] s.op = "get_schedules" /\ s.L.carried -> SchedClauses(e.r, b, e.r.zone)
          [] OTHER -> <<>>
 
@@ -190,9 +199,9 @@ ReadBackClauses(sl, r) ==
 Step(e, s, rw, sl, ak, ls) ==
   CASE e.ev = "Open" -> Res(<<>>, "open", Idle(e.api, e.dev, e.key), <<>>, <<>>)
     [] e.ev = "Connect" ->
-         Res(   Cl(e.flag = e.ok, "C18:connected-after-connect")
-             \o Cl(e.ok \/ ~e.flag, "C18:refused-connect-leaves-disconnected"),
-             IF e.ok THEN "connect" ELSE "connect-refused",
+         Res(   Cl(e.flag = (e.ok \/ s.conn = "open"), "C18:connected-after-connect")      \* a refused retry on a connected client changes nothing
+             \o Cl(e.ok \/ s.conn = "open" \/ ~e.flag, "C18:refused-connect-leaves-disconnected"),
+             IF e.ok THEN "connect" ELSE IF s.conn = "open" THEN "connect-refused-while-connected" ELSE "connect-refused",
              [s EXCEPT !.conn = IF e.ok THEN "open" ELSE IF @ = "open" THEN "open" ELSE @], rw, sl)
     [] e.ev = "Disc" ->
          Res(   Cl(~e.raised, "C18:disconnect-raised")
